@@ -26,6 +26,7 @@ type Clause struct {
 	// Known-finding residual: when non-nil the obligation discharged is (Expr || Witness)
 	Free bool // "free" ensures: assumed at call sites, not checked on the body (only allowed with trusted)
 	Pkg  *packages.Package
+	AtCreation bool // closure precondition over captured variables, checked where the closure is created
 }
 
 type AssignTarget struct {
@@ -76,6 +77,9 @@ type Contract struct {
 	ThreadWG  ast.Expr // the WaitGroup whose Done the thread calls exactly once
 	GhostTags []string
 	Probes    []ProbeDef
+	Stable     []ast.Expr // expressions over captured variables whose value at callback time equals the value at creation
+	Callback   string   // interface method key this closure is handed out as (behavioural subtyping is checked at creation)
+	CallbackAs ast.Expr // the named function type through which it becomes that interface
 	Replay    string // name of the replay driver under /verif/replay for obligations of this function
 	Asserts   []*SiteAssert
 	ifaceRecv string
@@ -173,7 +177,16 @@ type Axiom struct {
 	Hyps  []ast.Expr
 }
 
+// Frame is a named list of assignable locations (a macro usable in assigns clauses): frame Name(params) = t1, t2
+type Frame struct {
+	Name    string
+	Params  []string
+	Targets []AssignTarget
+	Pkg     *packages.Package
+}
+
 type Specs struct {
+	Frames      map[string]*Frame
 	Contracts   map[string]*Contract
 	SpecFuncs   map[string]*SpecFunc
 	GhostFields map[string]*GhostField // key: ownerKey + "." + name
@@ -187,7 +200,7 @@ type Specs struct {
 }
 
 func newSpecs() *Specs {
-	return &Specs{Contracts: map[string]*Contract{}, SpecFuncs: map[string]*SpecFunc{}, GhostFields: map[string]*GhostField{},
+	return &Specs{Frames: map[string]*Frame{}, Contracts: map[string]*Contract{}, SpecFuncs: map[string]*SpecFunc{}, GhostFields: map[string]*GhostField{},
 		GhostByName: map[string][]*GhostField{}, GhostVars: map[string]*GhostVar{}}
 }
 
@@ -422,6 +435,45 @@ func (s *Specs) loadSpecFile(w *World, path string, pkg *packages.Package, trust
 				return err
 			}
 			cur.Lets = append(cur.Lets, LetDef{Name: strings.TrimSpace(rest[:eq]), Expr: e, Src: rest})
+		case "callback":
+			// callback (Iface).Method as pkg.FuncType
+			m := regexp.MustCompile(`^(\S+)\s+as\s+(\S+)$`).FindStringSubmatch(rest)
+			if m == nil || cur == nil {
+				return fail(l, "callback (Iface).Method as FuncType")
+			}
+			key := m[1]
+			if strings.HasPrefix(key, "(") {
+				end := strings.Index(key, ")")
+				key = "(" + qualifyTypeName(key[1:end], pkg, w) + ")" + key[end+1:]
+			}
+			cur.Callback = key
+			te, err := parseExprAt(m[2], path, l.line)
+			if err != nil {
+				return err
+			}
+			cur.CallbackAs = te
+		case "stable":
+			if cur == nil {
+				return fail(l, "stable outside contract")
+			}
+			for _, part := range splitTopLevel(rest, ',') {
+				e, err := parseExprAt(part, path, l.line)
+				if err != nil {
+					return err
+				}
+				cur.Stable = append(cur.Stable, e)
+			}
+		case "requires-at-creation":
+			if cur == nil {
+				return fail(l, "requires-at-creation outside contract")
+			}
+			c, err := parseClause(rest, path, l.line)
+			if err != nil {
+				return err
+			}
+			c.Pkg = pkg
+			c.AtCreation = true
+			cur.Requires = append(cur.Requires, c)
 		case "requires", "ensures", "free-ensures":
 			if cur == nil {
 				return fail(l, "%s outside contract", word)
@@ -471,12 +523,13 @@ func (s *Specs) loadSpecFile(w *World, path string, pkg *packages.Package, trust
 			}
 			body := strings.TrimSpace(strings.TrimPrefix(strings.TrimSpace(strings.TrimPrefix(rest, f[0])), f[1]))
 			switch f[1] {
-			case "invariant":
+			case "invariant", "free-invariant":
 				c, err := parseClause(body, path, l.line)
 				if err != nil {
 					return err
 				}
 				c.Pkg = pkg
+				c.Free = f[1] == "free-invariant"
 				ls.Invariants = append(ls.Invariants, c)
 			case "decreases":
 				e, err := parseExprAt(body, path, l.line)
@@ -632,6 +685,23 @@ func (s *Specs) loadSpecFile(w *World, path string, pkg *packages.Package, trust
 				return fail(l, "duplicate spec func %s", sf.Name)
 			}
 			s.SpecFuncs[sf.Name] = sf
+			cur = nil
+		case "frame":
+			m := regexp.MustCompile(`^(\w+)\((.*?)\)\s*=\s*(.+)$`).FindStringSubmatch(rest)
+			if m == nil {
+				return fail(l, "frame Name(params) = target, target")
+			}
+			ts, _, err := parseAssigns(m[3], path, l.line)
+			if err != nil {
+				return err
+			}
+			fr := &Frame{Name: m[1], Targets: ts, Pkg: pkg}
+			for _, pn := range strings.Split(m[2], ",") {
+				if pn = strings.TrimSpace(pn); pn != "" {
+					fr.Params = append(fr.Params, strings.Fields(pn)[0])
+				}
+			}
+			s.Frames[fr.Name] = fr
 			cur = nil
 		case "bind":
 			// bind (r *T) Iface.Field = expr
